@@ -12,6 +12,10 @@ import YaegiVerif.Generated.C07
       FORM  = const | other      (constants are converted to the parameter type callBin picks)
       PKIND = concrete | empty | host
       ctx   = (assign B0 B1 …) | (ret POS) | (deflt)
+   pack PATH ISVARIADIC ELLIPSIS DEFERRED NFIXED NARGS   → y=<ok|bad:…> g=ok
+      PATH = bin (callBin) | fv (`call`, the function value is a host function): what the callee's parameters receive
+      against Go's packing (nil variadic slice without variadic arguments, the slice itself with `...`, also when deferred)
+   recvbind                        → y=<ok|bad:late-receiver> g=ok   (method wrapper: receiver read when the wrapper is made)
    reenter DEPTH CLOSURE           → y=<ok|bad:shared-frame> g=ok   (one wrapper value, nested invocations)
    wrap NUMRET NPARAMS CLOSURE     → y=<ok|bad:…> g=ok   (the MakeFunc wrapper against the in-script call, on probe frames) -/
 namespace YaegiVerif.Driver.C07
@@ -143,6 +147,31 @@ def firstBad (xs : List (Option String)) : String :=
   | [] => "ok"
   | b :: _ => "bad:" ++ b
 
+def packVerdict (packed : List Rep) (isVariadic ellipsis : Bool) (nFixed : Nat) (pa : List Rep) : Option String :=
+  if packed == goPack isVariadic ellipsis nFixed pa then none
+  else if isVariadic && !ellipsis && pa.length == nFixed then some "variadic-empty-slice-not-nil"
+  else if ellipsis then some "ellipsis-lost"
+  else some "packing"
+
+/-- packing alone, on either path -/
+def handlePack (viaBin isVariadic ellipsis deferred : Bool) (nFixed nArgs : Nat) : String :=
+  -- with `...` the last argument is the slice
+  let pa := if ellipsis then probeArgs (nArgs - 1) ++ [Rep.tuple (.cons (.int 70) (.cons (.int 71) .nil))] else probeArgs nArgs
+  let packed :=
+    if deferred then packDeferY G viaBin isVariadic ellipsis nFixed pa
+    else if viaBin then packBinY G isVariadic ellipsis nFixed pa
+    else packFnValueY G isVariadic ellipsis nFixed pa
+  match packVerdict packed isVariadic ellipsis nFixed pa with
+  | none => "y=ok g=ok"
+  | some b => s!"y=bad:{b} g=ok"
+
+/-- `mv := x.M; x = other; mv()`: the model of the method wrapper run with the regenerated fact -/
+def handleRecvBind : String :=
+  let getRecv : FnDef := { numRet := 1, params := [.plain], nLocals := 0, body := fun _ fr => setAt fr 0 (fr.getD 1 .nil) }
+  let noCall : Rep → List Rep → List Rep := fun _ _ => []
+  if methodWrapperCall G getRecv noCall (.int 1) (.int 2) [] == innerCall getRecv noCall [.int 1] then "y=ok g=ok"
+  else "y=bad:late-receiver g=ok"
+
 def handleCall (hasRecv recvIsIface recvInSig isVariadic ellipsis deferred : Bool) (params : List String) (velem : String)
     (args : List ArgIn) (ctx : Ctx) (nOut : Nat) : String :=
   let nParams := params.length
@@ -173,10 +202,8 @@ def handleCall (hasRecv recvIsIface recvInSig isVariadic ellipsis deferred : Boo
     if a.pk == .hostIface && k != k' then some s!"arg{i}-wrapper-target-param{k}" else none
   -- packing
   let pa := probeArgs nArgs
-  let packed := if deferred then packDeferY G isVariadic nFixed pa else packBinY G isVariadic ellipsis nFixed pa
-  let packBad := if packed == goPack isVariadic ellipsis nFixed pa then none
-    else if isVariadic && !ellipsis && nArgs == nFixed then some "variadic-empty-slice-not-nil"
-    else some "packing"
+  let packed := if deferred then packDeferY G true isVariadic ellipsis nFixed pa else packBinY G isVariadic ellipsis nFixed pa
+  let packBad := packVerdict packed isVariadic ellipsis nFixed pa
   -- routing
   let routeBad := if deferred then none else
     if routeY G ctx nOut == routeSpec ctx nOut then none else some "result-routing"
@@ -216,6 +243,11 @@ def handle (args : List Sexp) : String :=
      | some hr, some ri, some rs, some iv, some el, some df, some ps, some as, some c, some n =>
        handleCall hr ri rs iv el df ps ve as c n
      | _, _, _, _, _, _, _, _, _, _ => "bad-op")
+  | [.atom "pack", .atom path, iv, el, df, nf, na] =>
+    (match iv.bool?, el.bool?, df.bool?, nf.nat?, na.nat? with
+     | some iv, some el, some df, some nf, some na => handlePack (path == "bin") iv el df nf na
+     | _, _, _, _, _ => "bad-op")
+  | [.atom "recvbind"] => handleRecvBind
   | [.atom "reenter", dp, cl] =>
     (match dp.nat?, cl.bool? with
      | some dp, some cl => handleReenter dp cl
